@@ -157,6 +157,7 @@ def c_post(ctx, it, cfg):
     ctx.prove('every-condition-polled-exactly-once-with-this-model', len(tests) == len(conds) and all(e[1] == k and e[2] is m for k, e in enumerate(tests)))
     order = [e[0] for e in log if e[0] in ('deps', 'append', 'psd', 'coupled', 'test')]
     ctx.prove('conditions-polled-after-the-step-was-recorded', order[:4] == ['deps', 'append', 'psd', 'coupled'])
+    ctx.prove('coupled-models-updated-exactly-once-for-the-recorded-step-whatever-the-stop-decision', log.count(('coupled',)) == 1)
     ctx.prove('returns-current-state', X is Xcur)
     if cfg['modes']:
         ctx.prove('canary/first-condition-decides', eq(stop, conds[0].sat), expect='refuted' if len(cfg['modes']) > 1 else None)
